@@ -91,3 +91,19 @@ def jobs(tier, seed):
                                                     "spec": spec2, "name": "nocode"},
                      "weight": 3, "cpu_cap": 900, "wall_cap": 1500})
     return jobs
+
+
+def thorough_extra(seed):
+    jobs = []
+    spec_nocr = {n: dict(NOCR) for n in "abcdefgh"}
+    _sharded(jobs, {"cfg": JS, "scaffold": free_doc(4, "\n")}, weight=30, spec=spec_nocr)
+    _sharded(jobs, {"cfg": JS_NOCODE, "scaffold": free_doc(3, "\n")}, weight=10, spec=spec_nocr)
+    _sharded(jobs, {"cfg": CM, "scaffold": free_doc(3, "")}, weight=10, spec=spec_nocr)
+    jobs += block_ctx_jobs("maps", "quick", [CM, JS_NOCODE], [])
+    for sc in S.ctx_scaffolds("thorough"):
+        if sc.get("mode") == "block" and sc["name"].endswith("-nl") and not sc.get("maxnest"):
+            jobs.append({"harness": "maps", "params": {"cfg": JS, "scaffold": sc["scaffold"], "spec": sc.get("spec", {}), "name": sc["name"]}, "weight": 4})
+    for j in jobs:
+        j["cpu_cap"] = 3000
+        j["wall_cap"] = 4000
+    return jobs
